@@ -3,6 +3,7 @@
 CONSTANTS
   N = 2
   NI = 1
+  NK = 1
   MaxClock = 3
   Retention = 2
   T = 1
@@ -18,6 +19,7 @@ CONSTANTS
   GateNodes = {}
   InboxCap = 1
   VersionTest = TRUE
+  KeyTest = TRUE
   MaxDel = 0
   ObsoleteTimeout = 1
   ConsumeNet = FALSE
